@@ -6,12 +6,14 @@
 extern const char *cqv_strdup_src;
 extern char *cqv_strdup_ret;
 extern int cqv_strdup_calls, cqv_arena_live, cqv_error_sets;
+extern struct cqv_keep_s { const void *obj; size_t off; size_t len; } cqv_keep[5];
 #include "src/metadata/schema.c"
 
 #ifndef CQV_SCHEMA_MAX_CAP
 #define CQV_SCHEMA_MAX_CAP (((int32_t)1 << 30) - 1)
 #endif
 #define ELEM_SZ sizeof(parquet_schema_element_t)
+_Static_assert(sizeof(parquet_schema_element_t) == 80, "realloc window size in stubs/schema_stubs.c");
 
 /* REP(s): 1 <= num_elements <= capacity, 0 <= num_leaves < num_elements, the four arrays hold at
  * least `capacity` entries (more after a partially failed growth), root.num_children counts the
@@ -69,6 +71,13 @@ void h_add_column(void) {
   if (have_k) old_k = s->elements[k];
   if (have_j) { old_li = s->leaf_indices[j]; old_d = s->max_def_levels[j]; old_r = s->max_rep_levels[j]; }
   parquet_schema_element_t old_root = s->elements[0];
+
+  /* positions whose preservation across realloc is observed (see stubs/schema_stubs.c) */
+  cqv_keep[0].obj = s->elements; cqv_keep[0].off = 0; cqv_keep[0].len = ELEM_SZ;
+  cqv_keep[1].obj = s->elements; cqv_keep[1].off = (size_t)k * ELEM_SZ; cqv_keep[1].len = ELEM_SZ;
+  cqv_keep[2].obj = s->leaf_indices; cqv_keep[2].off = (size_t)j * 4; cqv_keep[2].len = 4;
+  cqv_keep[3].obj = s->max_def_levels; cqv_keep[3].off = (size_t)j * 2; cqv_keep[3].len = 2;
+  cqv_keep[4].obj = s->max_rep_levels; cqv_keep[4].off = (size_t)j * 2; cqv_keep[4].len = 2;
 
   size_t nlen = nondet_size_t();
   __CPROVER_assume(nlen >= 1 && nlen <= CQV_MAXBUF);
